@@ -160,6 +160,7 @@ func c06(c *core.Check) {
 	// templates
 	c06scopes(c)
 	c06redirect(c)
+	c06quoteEscape(c)
 	pkgIdentityByPath(c)
 	st := tmplEngine(c)
 	if st == nil {
